@@ -139,10 +139,11 @@ def cases(draw):
                     {"op": "step", "beh": {"kind": "always_fail", "err": "ValueError", "msg": "branch failed"}, "sem": "least", "retry": {"kind": "none"}},
                     {"op": "raise", "exc": {"cls": "ValueError", "msg": "branch raised"}},
                     {"op": "raise", "exc": {"cls": "KeyError", "msg": "k"}}]))])
-            body = [{"op": "parallel", "branches": brs, "cfg": {"completion": {"min": None, "tol": n + 1, "pct": None}, "summary": summ}}]
+            body = [{"op": "parallel", "branches": brs, "cfg": {"completion": {"min": None, "tol": n + 1, "pct": None}, "summary": summ,
+                                                               **({"item_serdes": "fragile"} if draw(st.integers(0, 2)) == 0 else {})}}]
         else:
             body = [{"op": "map", "items": [to_tagged(i) for i in range(n)], "body": [{"op": "step", "beh": {"kind": "big", "n": per}, "sem": "least", "retry": {"kind": "none"}}],
-                     "cfg": {"completion": comp, "summary": summ}}]
+                     "cfg": {"completion": comp, "summary": summ, **({"item_serdes": "fragile"} if draw(st.integers(0, 2)) == 0 else {})}}]
     elif kind == "handler_ok":
         d = draw(delta)
         n = max(1, (R * 2) if d is None else R + d)
@@ -201,6 +202,8 @@ def classes(run, case):
         out.append("multibyte-result:chars<=R<bytes")
     if any(e["replay_children"] for e in run.entries):
         out.append("replay-children-replay")
+    if any((s_.get("cfg") or {}).get("item_serdes") for _, s_ in G.program_paths(case["prog"]) if s_["op"] in ("map", "parallel")):
+        out.append("custom-item-serializer")
     if run.backend.closed is not None:
         out.append("execution-result-recorded")
     return out
